@@ -67,6 +67,9 @@ def make_entries(fmt, n, lens, rng):
             out.append(f"c{num}\t{num}\t{int(num) + 5}\tn{'x' * l}\t{'.' if i % 3 == 0 else i}\t{'+-'[i % 2]}\n")
         elif fmt == "bdg":
             out.append(f"c{num}\t{num}\t{int(num) + 5}\t{i}.5\n")
+        elif fmt == "bed12":
+            blocks = ",".join(str(10 ** (l - 1) + j) for j in range(i % 3 + 1)) + ("," if i % 2 else "")
+            out.append(f"c{num}\t{num}\t{int(num) + 5}\tn{i}\t{i}\t{'+-'[i % 2]}\t{num}\t{int(num) + 5}\t0,0,0\t{i % 3 + 1}\t{blocks}\t{blocks}\n")
         elif fmt == "narrowPeak":
             out.append(f"c{num}\t{num}\t{int(num) + 5}\tp{i}\t{i}\t.\t{i}.5\t-1\t-1\t{i}\n")
         elif fmt == "vcf":
@@ -112,6 +115,8 @@ def _buffer_type(fmt):
         return db.Bed6Buffer, ".bed"
     if fmt == "bdg":
         return db.BdgBuffer, ".bdg"
+    if fmt == "bed12":
+        return db.Bed12Buffer, ".bed"
     if fmt == "narrowPeak":
         return db.NarrowPeakBuffer, ".narrowPeak"
     if fmt == "vcf":
@@ -198,7 +203,7 @@ def cases(tier, rng):
                 yield {"op": "entries", "fmt": fmt if fmt != "fasta80" else "fasta", "header": header, "ents": ents, "gz": gz, "nl": nl, "crlf": crlf,
                        "lazy": lazy, "k": k, "longest": max(len(e) for e in ents) + 2}
     # --- entry level: formats x gz x nl x crlf x lazy x k
-    fmts = ["bed", "bed6", "bdg", "narrowPeak", "vcf", "vcfgt", "vcfpgt", "sam", "gtf", "fastq", "fasta2line", "fasta", "fasta3"]
+    fmts = ["bed", "bed6", "bed12", "bdg", "narrowPeak", "vcf", "vcfgt", "vcfpgt", "sam", "gtf", "fastq", "fasta2line", "fasta", "fasta3"]
     for fmt in fmts:
         for n in ((0, 1, 2, 3, 4) if big else (1, 2, 3)):
             lens_choices = list(itertools.product((1, 2, 5), repeat=min(n, 2))) if n else [()]
